@@ -62,10 +62,17 @@ type cl struct {
 	// maybe: a stream that replaced one for which this client had a per-stream request may be
 	// selected by that request or by the request map (galene hands the per-stream request
 	// over only if the new stream's tracks are known at its first push: timing-dependent)
-	maybe   map[string][]string
-	slow    time.Duration   // answers offers this late
-	sigSeen int             // number of signalling events already judged
-	held    map[string]bool // streams this client held at the previous check
+	maybe map[string][]string
+	slow  time.Duration // answers offers this late
+	// pushAsked: since the last check this client has sent a message that makes publishers
+	// push their streams to it again (request, requestStream).  An abort or an empty
+	// per-stream selection sent AFTER that in the same burst can be overtaken by such a push:
+	// the first push closes the stream (and forgets the per-stream request), the second one
+	// offers it again according to the request map.  Both outcomes are galene's semantics.
+	pushAsked bool
+	maybeBack map[string]bool
+	sigSeen   int             // number of signalling events already judged
+	held      map[string]bool // streams this client held at the previous check
 }
 
 type scen struct {
@@ -272,6 +279,20 @@ func (sc *scen) check() {
 			nowHeld[id] = true
 		}
 		for id, u := range sc.streams {
+			if s.maybeBack[id] && s.aborted[id] && nowHeld[id] && u.live && s.joined && u.pub.group == s.group {
+				// overtaken by a push this client had asked for just before: offered again
+				// according to the request map
+				var kinds []string
+				if rq, ok := s.request[u.label]; ok {
+					kinds = rq
+				} else {
+					kinds = s.request[""]
+				}
+				if got, _ := activeIDs(downs[id].LastOffer()); reflect.DeepEqual(got, selection(kinds, u.tracks)) {
+					delete(s.aborted, id)
+					sc.run.Count("aborts_overtaken_by_a_push_asked_for_before", 1)
+				}
+			}
 			want := sc.expected(s, u)
 			d := downs[id]
 			holds := nowHeld[id]
@@ -330,6 +351,7 @@ func (sc *scen) check() {
 			}
 		}
 		s.held = nowHeld
+		s.pushAsked, s.maybeBack = false, nil
 	}
 	sc.run.Count("checks", 1)
 }
@@ -625,11 +647,18 @@ func (sc *scen) act(r *rand.Rand) {
 			c.aborted[id] = true
 			delete(c.override, id)
 			delete(c.maybe, id)
+			if c.pushAsked {
+				if c.maybeBack == nil {
+					c.maybeBack = map[string]bool{}
+				}
+				c.maybeBack[id] = true
+			}
 		} else {
 			c.override[id] = kinds
 			// a per-stream request that selects something makes the publisher push the
 			// stream again: an earlier abort (or empty selection) of it is over
 			delete(c.aborted, id)
+			c.pushAsked = true
 		}
 		c.c.Send(vclient.Msg{"type": "requestStream", "id": id, "request": kinds})
 		sc.run.Count("requestStream", 1)
@@ -687,6 +716,12 @@ func (sc *scen) act(r *rand.Rand) {
 		// else this client does before the next check)
 		delete(c.override, id)
 		delete(c.maybe, id)
+		if c.pushAsked {
+			if c.maybeBack == nil {
+				c.maybeBack = map[string]bool{}
+			}
+			c.maybeBack[id] = true
+		}
 		others := sc.snapshotOthers(c)
 		c.c.Send(vclient.Msg{"type": "abort", "id": id})
 		sc.run.Count("aborts", 1)
@@ -792,6 +827,7 @@ func (sc *scen) request(c *cl, r *rand.Rand) {
 	}
 	sc.note(fmt.Sprintf("%s request %v", c.name, req))
 	c.request = req
+	c.pushAsked = true
 	// a new request makes every publisher push again: streams aborted earlier are re-offered
 	c.aborted = map[string]bool{}
 	c.maybe = map[string][]string{}
